@@ -1,6 +1,7 @@
 From GV Require Import Common.Outcome C10.GrmModel C10.GrmSpec C10.GrmProofs.
 From GV Require Import C10.YpExports.
 
+From GV Require Import C10.YpRoundExports.
 Theorem C10_grm_build_faithful : build_faithful_stmt.
 Proof. exact build_faithful. Qed.
 Print Assumptions C10_grm_build_faithful.
@@ -73,3 +74,61 @@ Print Assumptions C10b_action_span_fixed.
 Theorem C10b_action_span_refuted : action_span_refuted_stmt.
 Proof. exact action_span_refuted. Qed.
 Print Assumptions C10b_action_span_refuted.
+
+(* the whole-file round-trip law: parse (print layout grammar) = grammar, for a formal printer tied to the code *)
+
+Theorem C10round_yacc_roundtrip : yacc_roundtrip_stmt.
+Proof. exact yacc_roundtrip. Qed.
+Print Assumptions C10round_yacc_roundtrip.
+
+Theorem C10round_yacc_parse_roundtrip : yacc_parse_roundtrip_stmt.
+Proof. exact yacc_parse_roundtrip. Qed.
+Print Assumptions C10round_yacc_parse_roundtrip.
+
+Theorem C10round_validation_clean : validation_clean_stmt.
+Proof. exact validation_clean. Qed.
+Print Assumptions C10round_validation_clean.
+
+Theorem C10round_ast_of_faithful : ast_of_faithful_stmt.
+Proof. exact ast_of_faithful. Qed.
+Print Assumptions C10round_ast_of_faithful.
+
+Theorem C10round_ast_of_spans_select : ast_of_spans_select_stmt.
+Proof. exact ast_of_spans_select. Qed.
+Print Assumptions C10round_ast_of_spans_select.
+
+Theorem C10round_declarations_roundtrip : declarations_roundtrip_stmt.
+Proof. exact declarations_roundtrip. Qed.
+Print Assumptions C10round_declarations_roundtrip.
+
+Theorem C10round_decl_step : decl_step_stmt.
+Proof. exact decl_step. Qed.
+Print Assumptions C10round_decl_step.
+
+Theorem C10round_decls_pre_wf : decls_pre_wf_stmt.
+Proof. exact decls_pre_wf. Qed.
+Print Assumptions C10round_decls_pre_wf.
+
+Theorem C10round_decls_tok_inv : decls_tok_inv_stmt.
+Proof. exact decls_tok_inv. Qed.
+Print Assumptions C10round_decls_tok_inv.
+
+Theorem C10round_rules_roundtrip : rules_roundtrip_stmt.
+Proof. exact rules_roundtrip. Qed.
+Print Assumptions C10round_rules_roundtrip.
+
+Theorem C10round_rule_roundtrip : rule_roundtrip_stmt.
+Proof. exact rule_roundtrip. Qed.
+Print Assumptions C10round_rule_roundtrip.
+
+Theorem C10round_parse_action_roundtrip : parse_action_roundtrip_stmt.
+Proof. exact parse_action_roundtrip. Qed.
+Print Assumptions C10round_parse_action_roundtrip.
+
+Theorem C10round_action_span_roundtrip : action_span_roundtrip_stmt.
+Proof. exact action_span_roundtrip. Qed.
+Print Assumptions C10round_action_span_roundtrip.
+
+Theorem C10round_roundtrip_hyps_satisfiable : roundtrip_hyps_satisfiable_stmt.
+Proof. exact roundtrip_hyps_satisfiable. Qed.
+Print Assumptions C10round_roundtrip_hyps_satisfiable.
